@@ -10,7 +10,9 @@
          rejected  =>  nothing queued, and for a value of the right kind the rejection is the conversion error
                        (an argument of another kind - None, a dict where a number is expected - may fail with any exception at the call). *)
 EXTENDS Integers, Sequences
-Accepted(c) == c.out = "accepted" /\ Len(c.wire) = c.queued /\ \A i \in 1..Len(c.wire) : c.wire[i] = "ok"
+\* (must = 1: the call is known to have to produce a telegram - a value different from the last one given to an expose sensor whose
+\*  cooldown has elapsed by the time the queue is inspected)
+Accepted(c) == c.out = "accepted" /\ Len(c.wire) = c.queued /\ (\A i \in 1..Len(c.wire) : c.wire[i] = "ok") /\ (c.must = 1 => c.queued >= 1)
 Rejected(c) == /\ c.out # "accepted" /\ c.queued = 0
                /\ (c.vkind # "foreign" => c.out = "conv")         \* an argument of another kind may fail with any exception at the call
 SendOk(c) == Accepted(c) \/ Rejected(c)
